@@ -300,4 +300,6 @@ def targets():      # noqa: F811
     # shared with C03: a circuit built with the builder, or re-created from its description code, goes through the emitters --
     # every child of a connection is printed (also a nested connection without children, which is a short inside a parallel one)
     emitters = [t for t in c03.targets() if "to_string" in t[0]]
-    return _targets_before_folds() + [diagrams.target_child_folds()] + parallel_law.targets() + emitters
+    # shared with C14: a container built by setting its sub-circuits afterwards is the same circuit as one built with them
+    from . import c14
+    return _targets_before_folds() + [diagrams.target_child_folds()] + parallel_law.targets() + emitters + [c14.target_set_subcircuits(), c14.target_container_init()]
